@@ -24,6 +24,18 @@ def run():
     if chk.thorough():
         chk.add_model("BarrierDropImpl (4 participants, one drops in the middle phase)",
                       vlib.model_check("BarrierDropImpl", "BarrierDropImpl_4.cfg", timeout=3000))
+    # call_once on top of event (status CAS, reset / set, waiters)
+    chk.add_model("OnceImpl (3 callers, first execution throws; event set / wait / reset in steps)",
+                  vlib.model_check("OnceImpl", "OnceImpl.cfg", timeout=600))
+    chk.add_model("OnceImpl/benign reordering set_before_done (must still hold)",
+                  vlib.model_check("OnceImpl", "OnceImpl_dev_set_before_done.cfg", timeout=600))
+    for v in ("done_on_throw", "claim_by_store"):
+        ro = vlib.model_check("OnceImpl", "OnceImpl_dev_%s.cfg" % v, expect_ok=False, timeout=600)
+        chk.add_model("OnceImpl/variant %s (must violate)" % v, ro, note="violated: %s" % ro["violated"])
+    ro = vlib.model_check("OnceImpl", "OnceImpl_obs.cfg", expect_ok=False, timeout=600)
+    chk.add_model("OnceImpl/observation: a failed runner's late event.set() can land after the next runner's reset() "
+                  "(waiters spin instead of blocking; no property of C09 depends on it)", ro,
+                  note="reached: %s" % ro["violated"])
     (binary,) = vlib.build_harness(["lbeo_harness"])
     nruns = 64 if chk.thorough() else 16
     nhist = 250 if chk.thorough() else 100
